@@ -155,7 +155,14 @@ def sort_keys(ctx: Ctx, h: HO):
     for qn in ("DictOps.iterate_vals", "DictOps.iterate_items"):
         fn = repo.func(DO, qn)
         src = repo.module(DO).segment(fn.node)
-        ok = "key=lambda p: p[0]" in src or "lambda p: p[0]" in src
+        # the default key selects component 0 of each (key, value) item: a lambda or operator.itemgetter(0)
+        ok = False
+        for n_ in ast.walk(fn.node):
+            if isinstance(n_, ast.Lambda) and len(n_.args.args) == 1 and isinstance(n_.body, ast.Subscript) and isinstance(n_.body.value, ast.Name) \
+                    and n_.body.value.id == n_.args.args[0].arg and isinstance(n_.body.slice, ast.Constant) and n_.body.slice.value == 0:
+                ok = True
+            if isinstance(n_, ast.Call) and flow.dump(n_.func) in ("operator.itemgetter", "itemgetter") and len(n_.args) == 1 and isinstance(n_.args[0], ast.Constant) and n_.args[0].value == 0:
+                ok = True
         n += 1
         ctx.check(ok, "D2", "HO.sort-key", f"{qn}: without a key function the items are sorted by their (unique) Map key", fn,
                   why_bad="default ordering is not the Map key", construct=f"{qn}:default-key")
